@@ -34,6 +34,7 @@
 (*   [k |-> "sub", c |-> class name, x |-> value of the base type],        *)
 (*   [k |-> "inst", c |-> class name, fs |-> << <<field, value>> .. >>,    *)
 (*    set |-> {field names}]                                               *)
+(*   [k |-> "vol", one |-> "T"|"F", x |-> value]   pane.types.ValueOrList  *)
 (***************************************************************************)
 EXTENDS Integers, Sequences, FiniteSets
 
@@ -60,6 +61,19 @@ IntQ(n)  == <<n, 1>>
 RLt(a, b)  == a[1] * b[2] <  b[1] * a[2]
 RLeq(a, b) == a[1] * b[2] <= b[1] * a[2]
 REq(a, b)  == a[1] * b[2] =  b[1] * a[2]
+
+(* exact rational arithmetic (for the shipped Range helper: span / step, ceilings) *)
+RECURSIVE GCD(_, _)
+GCD(a, b)  == IF b = 0 THEN a ELSE GCD(b, a % b)
+AbsI(n)    == IF n < 0 THEN -n ELSE n
+RNorm(r)   == LET n == IF r[2] < 0 THEN -r[1] ELSE r[1]
+                  d == AbsI(r[2])
+                  g == GCD(AbsI(n), d) IN <<n \div g, d \div g>>
+RSub(a, b) == RNorm(<<a[1] * b[2] - b[1] * a[2], a[2] * b[2]>>)
+RDiv(a, b) == RNorm(<<a[1] * b[2], a[2] * b[1]>>)             \* b[1] # 0
+RCeil(a)   == -((-a[1]) \div a[2])                            \* \div is floor division
+RECURSIVE IsPow2(_)
+IsPow2(n)  == n = 1 \/ (n > 1 /\ n % 2 = 0 /\ IsPow2(n \div 2))
 
 MkNone       == [k |-> "none"]
 MkBool(b)    == [k |-> "bool", b |-> b]
@@ -144,6 +158,7 @@ Hashable(x) ==
     [] x.k = "sub"   -> Hashable(x.x)
     [] x.k = "inst"  -> \A i \in DOMAIN x.fs : Hashable(x.fs[i][2])
     [] x.k = "ndarray" -> FALSE
+    [] x.k = "vol"   -> FALSE          \* ValueOrList defines __eq__ only
     [] OTHER -> TRUE
 
 (* Wire form -> TLA+ values.  In JSON (and inside type descriptors: default values) sets are   *)
@@ -154,6 +169,7 @@ Dec(x) ==
     [] x.k = "map"  -> [x EXCEPT !.ps = [i \in DOMAIN x.ps |-> <<Dec(x.ps[i][1]), Dec(x.ps[i][2])>>]]
     [] x.k = "set"  -> [x EXCEPT !.es = {Dec(x.es[i]) : i \in DOMAIN x.es}]
     [] x.k = "sub"  -> [x EXCEPT !.x = Dec(x.x)]
+    [] x.k = "vol"  -> [x EXCEPT !.x = Dec(x.x)]
     [] x.k = "inst" -> [x EXCEPT !.fs = [i \in DOMAIN x.fs |-> <<x.fs[i][1], Dec(x.fs[i][2])>>],
                                  !.set = Range(x.set)]
     [] OTHER -> x
